@@ -2322,6 +2322,28 @@ def gen_timed_prog(rng):
 
 
 def gen_once_prog(rng):
+    if rng.random() < 0.25:
+        # control 3: the init routine is a program of its own (a body that is never created as a thread): it creates
+        # and joins threads (and yields) while the other callers wait for it
+        nt = rng.randint(1, 4)
+        bodies = []
+        for _ in range(nt):
+            ops = []
+            for _ in range(rng.randint(1, 2)):
+                ops.append((OP['ONCE'], rng.choice((3, 3, 0, 1)), 0, 0))
+                if rng.random() < 0.3:
+                    ops.append((OP['YD'], rng.choice((0, 1, 2)), 0, 0))
+            bodies.append(ops)
+        nk = rng.randint(1, 2)                      # children of the init routine: bodies nt+1 .. nt+nk
+        kids = [[(OP['YD'], rng.choice((0, 1, 2)), 0, 0)] * rng.randint(0, 2) + ([(OP['ONCE'], 1, 0, 0)] if rng.random() < 0.4 else []) for _ in range(nk)]
+        routine = [(OP['CR'], nt + 1 + j, rng.choice((0, 0, F_PF)), 0) for j in range(nk)]
+        if rng.random() < 0.4:
+            routine.append((OP['YD'], rng.choice((0, 1, 2)), 0, 0))
+        order = list(range(nk)); rng.shuffle(order)
+        routine += [(OP['JN'], nt + 1 + j, 0, 0) for j in order]
+        main_extra = [(OP['ONCE'], 3, 0, 0)] if rng.random() < 0.5 else []
+        allb = _spawn_join(rng, bodies, main_extra) + kids + [routine]
+        return {'init': [(7, 0, nt + nk + 1)], 'bodies': allb}
     nt = rng.randint(1, 5)
     bodies = []
     withmutex = rng.random() < 0.4       # control 2: the init routine blocks on mutex 3, which other threads hold across yields
